@@ -37,18 +37,46 @@ func execute(h *run.H, tr *hist.Trace, draw func(w *hist.World, m *Monitor, i in
 	if len(roles) > 1 {
 		roles = roles[:1]
 	}
-	w, err := hist.NewWorld(tr.Params, roles)
-	if err != nil {
-		return viol("harness", "world", "cannot build world: %v", err), cs
+	// a scratch directory left behind by a killed process that had the same pid may be picked up again
+	// (the name is derived from the pid): a world whose genesis state is not clean is discarded and rebuilt
+	var w *hist.World
+	var mon *Monitor
+	for try := 0; ; try++ {
+		var err error
+		w, err = hist.NewWorld(tr.Params, roles)
+		if err != nil {
+			if try < 3 {
+				continue
+			}
+			return viol("harness", "world", "cannot build world: %v", err), cs
+		}
+		if _, err := w.Init(); err != nil {
+			w.Close()
+			if try < 3 {
+				continue
+			}
+			return viol("harness", "init", "InitChain: %v", err), cs
+		}
+		gen := w.R[0].DumpMap()
+		dirty := w.C.Height != 0
+		for k := range gen {
+			if strings.HasPrefix(k, "prop") {
+				dirty = true
+			}
+		}
+		if dirty && try < 3 {
+			w.Close()
+			continue
+		}
+		var bad *Violation
+		mon, bad = NewMonitor(tr.Params, gen)
+		if bad != nil {
+			w.Close()
+			return bad, cs
+		}
+		break
 	}
 	defer w.Close()
-	if _, err := w.Init(); err != nil {
-		return viol("harness", "init", "InitChain: %v", err), cs
-	}
-	mon, bad := NewMonitor(tr.Params, w.R[0].DumpMap())
-	if bad != nil {
-		return bad, cs
-	}
 	cs.mon = mon
 	for i := 0; ; i++ {
 		var st hist.Step
